@@ -595,7 +595,7 @@ def run(argv):
     if leg_font_size is not None:
         pl.legfs = leg_font_size
     if title_font_size is not None:
-        pl.title_font_size = title_font_size
+        pl.titlefs = title_font_size
     if annotation_font_size is not None:
         pl.afs = annotation_font_size
     if leg_loc is not None:
